@@ -489,6 +489,11 @@ impl Prop for C11 {
                 "[0-9]{0,3}[A-Za-z0-9+/=]{0,200}".prop_map(|s| Case::Text { s }),
                 "02[A-Za-z0-9+/]{0,300}={0,2}".prop_map(|s| Case::Text { s }),
                 "(02|01|00|03|99|2|é2|０２)eN[A-Za-z0-9+/]{0,80}={0,2}".prop_map(|s| Case::Text { s }),
+                // whitespace-heavy strings (what a "tolerant" trim would meet)
+                "[ \n\r\t]{0,6}".prop_map(|s| Case::Text { s }),
+                "[0-9 \n\r\t]{0,5}".prop_map(|s| Case::Text { s }),
+                "[ \n\r\t]{0,3}02eNpjYEAHjOgCAAA0AAI=[ \n\r\t]{0,3}".prop_map(|s| Case::Text { s }),
+                "[ \n\r\t]{0,6}".prop_map(|s| Case::V1Text { s }),
                 ".{0,40}".prop_map(|s| Case::V1Text { s }),
                 "[0-9a-fA-F]{0,200}".prop_map(|s| Case::V1Text { s }),
                 "789c[0-9a-f]{0,120}".prop_map(|s| Case::V1Text { s }),
@@ -621,6 +626,9 @@ impl Prop for C11 {
             Case::Text { s } => {
                 if !s.is_ascii() {
                     obs.hit("non_ascii_text");
+                }
+                if !s.is_empty() && s.trim().len() < 3 {
+                    obs.hit("whitespace_only_or_nearly");
                 }
                 if let Some(c) = v2_compressed(s) {
                     if inflate(&c, 1 << 16).map(|b| !b.is_empty()).unwrap_or(false) {
@@ -793,6 +801,7 @@ impl Prop for C11 {
             "accepted",
             "rejected",
             "non_ascii_text",
+            "whitespace_only_or_nearly",
             "truncated",
             "bomb",
             "bomb_2x_above_bound",
